@@ -60,7 +60,7 @@ def _work(units):
             # the same program written with comments that contain \r, \x0c, U+2028 ... followed by code-looking text: the
             # routing must be that of the undecorated program (a comment runs to the next \n, nothing else ends it)
             deco = "// not\r not ( \x0c ) or \u2028 else { \x85 return \x1c 1 weighted 1 }\n"
-            text = rp.render(ast).replace("{ ", "{ " + deco, 1).replace(" if ", " if " + "/* ( \r */ ", 1)
+            text = rp.render(ast).replace("{ ", "{ " + deco, 1).replace(" if ", " if " + "/* ( \r */ ", 1).replace(" { return", " /* ) */ { return", 1)
             if rp.classify(text) == ("accept", ast):
                 progcheck.check_prog(acc, ast, [dict(e, u="id7") for e in envs], "op-decorated:" + tag, text=text)
             ast3 = esh.prog_of(("if", ("not", p), ("ret", (("N", "1"),)), ("elif", ("and", p, ("not", ("not", p))), ("ret", (("P", "1"),)), None)))
